@@ -24,7 +24,7 @@ import extract as X   # noqa: E402
 import weave as W     # noqa: E402
 
 REPO = os.environ.get('VP_REPO', '/repo')
-BUILD = os.path.join(ROOT, 'build')
+BUILD = os.environ.get('VERIF_BUILD', os.path.join(ROOT, 'build'))
 VERUS_FLAGS = ['--cfg', 'feature="std"', '--cfg', 'feature="default-resolver"', '--triggers-mode', 'silent',
                '--multiple-errors', '60', '--output-json', '--time', '--error-format=json']
 CRATE_MODS = ('constants', 'error', 'utils', 'types', 'cipherstate', 'symmetricstate', 'handshakestate',
@@ -221,7 +221,12 @@ def map_diag(model, d, fname):
                 break
         if meta:
             break
-    if meta is not None and meta['kind'] != 'vacuity':
+    if meta is not None and meta['kind'] == 'assumed' and meta['fn'] != res['fn']:
+        label = 'implements_trait_contract'
+        res['props'] = meta['props']
+        res['clause'] = meta['text']
+        res['where'] = '%s:%d' % meta['where']
+    elif meta is not None and meta['kind'] != 'vacuity':
         label = meta['label']
         res['props'] = meta['props']
         res['clause'] = meta['text']
@@ -269,6 +274,17 @@ def obligations(res):
         o['props'].update(mt['props'])
         if len(o['texts']) < 3:
             o['texts'].append(mt['text'][:200])
+    # a verified impl of a trait method whose contract is stated on the trait: one obligation "meets the trait contract"
+    decls = {}
+    for fe in model.info['fn_entries']:
+        if fe.get('decl_of_trait') and not fe['has_body']:
+            decls[(fe['decl_of_trait'], fe['name'])] = fe
+    for fe in model.info['fn_entries']:
+        t = fe.get('impl_of_trait')
+        if t and (t, fe['name']) in decls and fe['id'] in res['funcs']:
+            o = obs.setdefault((fe['id'], 'implements_trait_contract'), {'props': set(), 'kind': 'trait', 'texts': ['meets the contract stated on trait %s::%s' % (t, fe['name'])], 'where': '%s:%d' % decls[(t, fe['name'])]['where']})
+            o['props'].update(fe['props'])
+            o['props'].update(decls[(t, fe['name'])]['props'])
     for fn, st in res['funcs'].items():
         mod = fn.split('::')[0]
         if st['mode'] == 'exec' and mod in CRATE_MODS:
